@@ -136,17 +136,18 @@ def parseLine (delim : Nat) (keep : Bool) (line : Text) : Except LineErr Rec :=
 
 /-! ### files -/
 
+/-- a line is complete: one carriage return before the line feed is dropped (`acc` is reversed) -/
+def finishLine (acc : Text) : Text :=
+  match acc with
+  | 13 :: acc' => acc'.reverse
+  | _ => acc.reverse
+
 /-- `BufRead::lines` on valid UTF-8 -/
 def readLines (s : Text) : List Text := go s []
 where
   go : Text → Text → List Text
     | [], acc => if acc.isEmpty then [] else [acc.reverse]
-    | c :: cs, acc =>
-      if c == 10 then
-        (match acc with
-          | 13 :: acc' => acc'.reverse
-          | _ => acc.reverse) :: go cs []
-      else go cs (c :: acc)
+    | c :: cs, acc => if c == 10 then finishLine acc :: go cs [] else go cs (c :: acc)
 
 /-- `writeln!` of every line -/
 def writeLines (ls : List Text) : Text := ls.flatMap (· ++ [10])
